@@ -84,11 +84,12 @@ class Local(FileSystem):
     def dump(self, stream):
         file_path = self.file_path  # caching
 
-        # making sure directory exists
+        # making sure directory exists (several tasks of one job may get here at
+        # the same time: whoever comes second must not fail)
         dirname = os.path.dirname(file_path)
         if dirname and not os.path.exists(dirname):
             log.debug('creating local directory %s', dirname)
-            os.makedirs(dirname)
+            os.makedirs(dirname, exist_ok=True)
 
         log.debug('writing file %s', file_path)
         with io.open(file_path, 'wb') as f:
